@@ -20,10 +20,14 @@ import (
 	"verif/vlib"
 )
 
-const maxEnc = 64 << 10
+const (
+	maxEnc    = 64 << 10
+	maxEncBig = 192 << 10 // the big/* families: one blob or text above 65535 bytes (4-byte length prefix)
+)
 
 type enc struct {
 	Family string
+	Index  int // case index (rotates the input modes)
 	Dec    int
 	B      []byte
 	Fields []refcodec.Field
@@ -33,6 +37,16 @@ type enc struct {
 	// Alt: drawn in a layout on which golib's own writer and reader disagree (both forms are
 	// generated; set through altForm by the generator): admitted only when consumed completely
 	Alt bool
+	// Big: drawn by a big/* family (carries a blob / text with a 4-byte length prefix): may be
+	// up to maxEncBig bytes long
+	Big bool
+}
+
+func (e *enc) limit() int {
+	if e.Big {
+		return maxEncBig
+	}
+	return maxEnc
 }
 
 // altForm is set by a generator that draws one of two rival layouts of the same message
@@ -343,8 +357,295 @@ func init() {
 	pr("ReadDecimalArrayInt", func(r *vlib.Rand, w *W) { decArr(r, w, true) })
 
 	famSM()
+	famBig()
 
 	if len(families)%2 == 0 {
 		fam("value/gen-shallow2", func(r *vlib.Rand) *enc { return valueEnc(valgen.Gen(r, 1, r.Range(0, 8))) })
 	}
+}
+
+// ---- big/*: blobs and texts above 65535 bytes ----------------------------------------------
+//
+// The length prefix of a blob / text has three classes: one byte (≤ 253), 255 + 2 bytes
+// (≤ 65535), 254 + 4 bytes (above). The third class needs a message of more than 64 KiB, which
+// the other families never produce. Each big/* encoding carries exactly one such blob or text
+// inside a pack, a step, a step stream, a value, a record or a primitive, so that the strict
+// prefixes (first and last KiB, around every field-map entry, a stride through the rest) end
+// inside it and the hostile values hit its 5-byte length prefix.
+
+func bigLen(r *vlib.Rand) int {
+	switch r.Intn(4) {
+	case 0:
+		return 65536 + r.Intn(3) // just above the 2-byte class
+	case 1:
+		return r.Range(65539, 70000)
+	default:
+		return r.Range(70000, 98000)
+	}
+}
+
+// bigSteps: a few ordinary steps and one step that holds a blob / text of n bytes
+func bigSteps(r *vlib.Rand, n int) []refcodec.RefStep {
+	steps := stepgen.GenSteps(r, r.Range(0, 4))
+	for i := range steps { // keep the others small
+		steps[i] = smallStep(r, steps[i])
+	}
+	var s refcodec.RefStep
+	switch r.Intn(4) {
+	case 0:
+		s = smallStep(r, stepgen.GenStep(r, refcodec.StepTMessage))
+		s.Desc = r.AsciiN(n)
+	case 1:
+		s = smallStep(r, stepgen.GenStep(r, refcodec.StepTSqlX))
+		if r.Bool() {
+			s.P1 = r.Bytes(n)
+		} else {
+			s.P2 = r.Bytes(n)
+		}
+	case 2:
+		s = smallStep(r, stepgen.GenStep(r, refcodec.StepTSecureMsg))
+		s.SecValue = r.Bytes(n)
+	default:
+		s = smallStep(r, stepgen.GenStep(r, refcodec.StepTHttpcX))
+		s.Version = 2
+		s.Param = r.AsciiN(n)
+	}
+	at := r.Intn(len(steps) + 1)
+	steps = append(steps[:at], append([]refcodec.RefStep{s}, steps[at:]...)...)
+	return steps
+}
+
+// smallStep cuts the occasional 64 KiB blob / text of the step generator down
+func smallStep(r *vlib.Rand, s refcodec.RefStep) refcodec.RefStep {
+	cutB := func(b []byte) []byte {
+		if len(b) > 400 {
+			return b[:400]
+		}
+		return b
+	}
+	cutS := func(t string) string {
+		if len(t) > 400 {
+			return r.AsciiN(300)
+		}
+		return t
+	}
+	s.P1, s.P2, s.IpAddr, s.SecValue = cutB(s.P1), cutB(s.P2), cutB(s.IpAddr), cutB(s.SecValue)
+	s.Driver, s.OriginUrl, s.Param, s.Desc, s.Title = cutS(s.Driver), cutS(s.OriginUrl), cutS(s.Param), cutS(s.Desc), cutS(s.Title)
+	return s
+}
+
+func bigPack(r *vlib.Rand) *enc {
+	n := bigLen(r)
+	w := refcodec.NewW()
+	var name string
+	switch r.Intn(8) {
+	case 0: // the steps blob holds a step with a big text: two nested blobs of the 4-byte class
+		name = "ToPack/ProfilePack"
+		w.ProfilePack(refcodec.RefProfilePack{Hdr: refHdr(r), Tx: stepgen.GenTxRecord(r), Steps: bigSteps(r, n)})
+	case 1:
+		name = "Read/ProfileStepSplitPack"
+		w.StepSplitPack(refcodec.RefStepSplitPack{Hdr: refHdr(r), Txid: r.I64(), Inx: int64(r.I32()), Steps: bigSteps(r, n)})
+	case 2: // profile blob or stack blob above 64 KiB
+		name = "ToPack/ErrorSnapPack1"
+		p := refcodec.RefErrorSnapPack{Hdr: refHdr(r), Seq: r.I64(), HasStack: true, AppendType: byte(r.U64()), AppendHash: r.I32()}
+		if r.Bool() {
+			p.Profile = bigSteps(r, n)
+			p.Stack = make([]int32, smallN(r, 20))
+		} else {
+			p.Profile = stepgen.GenSteps(r, 0)
+			p.Stack = make([]int32, n/4+1)
+		}
+		for i := range p.Stack {
+			p.Stack[i] = r.I32()
+		}
+		w.ErrorSnapPack(p)
+	case 3:
+		name = "ToPack/RealtimeUserPack"
+		packType(w, 0x0f00)
+		packHeader(w, r)
+		w.Blob(r.Bytes(n))
+	case 4: // one text of the table above 64 KiB
+		name = "ToPack/TextPack"
+		packType(w, 0x0700)
+		packHeader(w, r)
+		cnt := r.Range(1, 4)
+		at := r.Intn(cnt)
+		decCount(w, cnt, "textpack-count")
+		for i := 0; i < cnt; i++ {
+			w.U8(byte(r.U64())).I32(r.I32())
+			if i == at {
+				w.Text(r.AsciiN(n))
+			} else {
+				w.Text(shortStr(r))
+			}
+		}
+	case 5: // the record blob above 64 KiB: the records are packs, one of them with a long text
+		name = "ToPack/ZipPack"
+		packType(w, 0x170b)
+		packHeader(w, r)
+		w.U8(0)
+		cnt := r.Range(1, 3)
+		at := r.Intn(cnt)
+		decCount(w, cnt, "zip-record-count")
+		o := refcodec.NewW()
+		for i := 0; i < cnt; i++ {
+			if i == at {
+				m := refcodec.NewW()
+				packType(m, 0x170a)
+				packHeader(m, r)
+				version(m, 0, "logsink-version")
+				m.Text(shortStr(r)).Decimal(r.I64())
+				m.Value(mapValue(r, 1, 3))
+				m.Decimal(r.I64()).Text(r.AsciiN(n))
+				m.Mark(1, kTag, "logsink-fields-present")
+				m.U8(0)
+				appendW(o, m)
+			} else {
+				appendW(o, encTextPack(r))
+			}
+		}
+		blobOf(w, o)
+	case 6: // the content text of a log record
+		name = "ToPack/LogSinkPack"
+		packType(w, 0x170a)
+		packHeader(w, r)
+		version(w, 0, "logsink-version")
+		w.Text(shortStr(r)).Decimal(r.I64())
+		w.Value(mapValue(r, 1, 4))
+		w.Decimal(r.I64()).Text(r.AsciiN(n))
+		w.Mark(1, kTag, "logsink-fields-present")
+		w.U8(0)
+	default: // a parameter value that is a big blob / text
+		name = "ToPack/ParamPack"
+		packType(w, 0x0100)
+		packHeader(w, r)
+		w.I32(r.I32()).Decimal(r.I64()).Decimal(r.I64())
+		keys := valgen.StrKeys(r, r.Range(1, 4))
+		at := r.Intn(len(keys))
+		decCount(w, len(keys), "param-count")
+		for i, k := range keys {
+			w.Text(k)
+			if i == at {
+				w.Value(bigLeaf(r, n))
+			} else {
+				w.Value(valgen.Gen(r, 1, 3))
+			}
+		}
+	}
+	e := fromW(name, w)
+	e.Big = true
+	return e
+}
+
+func bigLeaf(r *vlib.Rand, n int) refcodec.V {
+	if r.Bool() {
+		return refcodec.V{Tag: refcodec.TBlob, B: r.Bytes(n)}
+	}
+	return refcodec.V{Tag: refcodec.TText, S: r.AsciiN(n)}
+}
+
+func bigValueStepRecord(r *vlib.Rand) *enc {
+	n := bigLen(r)
+	var e *enc
+	switch r.Intn(6) {
+	case 0: // a leaf
+		w := refcodec.NewW()
+		w.Value(bigLeaf(r, n))
+		e = fromW("ReadValue", w)
+	case 1: // inside a list / a map / an int map, somewhere among small values
+		cnt := r.Range(1, 5)
+		at := r.Intn(cnt)
+		v := refcodec.V{Tag: []byte{refcodec.TList, refcodec.TMap, refcodec.TIntMap}[r.Intn(3)]}
+		keys := valgen.StrKeys(r, cnt)
+		for i := 0; i < cnt; i++ {
+			el := valgen.Leaf(r, 3)
+			if i == at {
+				el = bigLeaf(r, n)
+			}
+			switch v.Tag {
+			case refcodec.TList:
+				v.List = append(v.List, el)
+			case refcodec.TMap:
+				v.Keys = append(v.Keys, keys[i])
+				v.Vals = append(v.Vals, el)
+			default:
+				v.IntKeys = append(v.IntKeys, int32(i*7+1))
+				v.Vals = append(v.Vals, el)
+			}
+		}
+		w := refcodec.NewW()
+		w.Value(v)
+		e = fromW("ReadValue", w)
+	case 2: // an element of a text array
+		cnt := r.Range(1, 5)
+		v := refcodec.V{Tag: refcodec.TTextArray, Texts: make([]string, cnt)}
+		for i := range v.Texts {
+			v.Texts[i] = shortStr(r)
+		}
+		v.Texts[r.Intn(cnt)] = r.AsciiN(n)
+		w := refcodec.NewW()
+		w.Value(v)
+		e = fromW("ReadValue", w)
+	case 3: // one step
+		st := bigSteps(r, n)
+		var s refcodec.RefStep
+		for _, x := range st {
+			if len(x.Desc) >= n || len(x.P1) >= n || len(x.P2) >= n || len(x.SecValue) >= n || len(x.Param) >= n {
+				s = x
+			}
+		}
+		w := refcodec.NewW()
+		w.Step(s)
+		e = fromW("ReadStep/"+refcodec.StepTypeName(s.Type), w)
+	case 4: // a step stream
+		steps := bigSteps(r, n)
+		w := refcodec.NewW()
+		sizes := w.Steps(steps)
+		e = fromW("ReadStep/stream", w)
+		e.Fields = append(e.Fields, refcodec.Field{Off: 0, Width: 0, Kind: kEnd, Name: "step-boundary"})
+		off := 0
+		for _, s := range sizes[:len(sizes)-1] {
+			off += s
+			e.Fields = append(e.Fields, refcodec.Field{Off: off, Width: 0, Kind: kEnd, Name: "step-boundary"})
+		}
+	default: // a transaction record whose body blob exceeds 64 KiB (the origin url)
+		t := stepgen.GenTxRecord(r)
+		t.OriginUrl = r.AsciiN(n)
+		w := refcodec.NewW()
+		w.TxRecord(t)
+		e = fromW("TxRecord", w)
+	}
+	e.Big = true
+	return e
+}
+
+func bigPrim(r *vlib.Rand) *enc {
+	n := bigLen(r)
+	w := refcodec.NewW()
+	name := "DataInputX.ReadBlob"
+	switch r.Intn(3) {
+	case 0:
+		w.Blob(r.Bytes(n))
+	case 1:
+		name = "DataInputX.ReadText"
+		w.Text(r.AsciiN(n))
+	default:
+		name = "DataInputX.ReadTextArray"
+		cnt := r.Range(1, 4)
+		v := make([]string, cnt)
+		for i := range v {
+			v[i] = shortStr(r)
+		}
+		v[r.Intn(cnt)] = r.AsciiN(n)
+		w.TextArray(v)
+	}
+	e := fromW(name, w)
+	e.Big = true
+	return e
+}
+
+func famBig() {
+	fam("big/pack", bigPack)
+	fam("big/value-step-record", bigValueStepRecord)
+	fam("big/prim", bigPrim)
 }
